@@ -111,6 +111,6 @@ REGISTRY = {
     "C01": _sctp("c01", RULE_SCTP, probes=["fragmented_messages", "empty_messages", "messages_delivered"]),
     "C02": _sctp("c02", RULE_SCTP, probes=["drained_after_heal", "probe_delivered"]),
     "C06": _sctp("c06", RULE_SCTP, probes=["probe_delivered"]),
-    "C08": _sctp("c01", RULE_SCTP, probes=["wire_roundtrips"]),
+    "C08": _sctp("c08", RULE_SCTP, probes=["wire_roundtrips", "corrupted_datagrams_handled"]),
     "C13": _sctp("c13", RULE_SCTP, probes=["id_reused", "close_before_id_assigned"]),
 }
